@@ -55,7 +55,11 @@ pub fn gen_cgr_case(rng: &mut Rng, tier: &str, prop: &str, k: usize) -> Case {
         if !candidates.is_empty() {
             let j = *rng.pick(&candidates);
             let pos = rng.usize(0, records[j].seq.len() - 1);
-            let b = *rng.pick(&[b'N', b'n', b'R', b'-', b'X', b'.', b'*']);
+            // any printable byte that is not a nucleotide letter (the structural
+            // '>', '@', '+' excepted); digits and punctuation alias the letters
+            // in their low bits
+            const FOREIGN: &[u8] = b"NnRrYyKkMmSsWwBbDdHhVvXx-.*0123456789!#$%&'(),/:;<=?[]^_{|}~EFIJLOPQZefijlopqz";
+            let b = *rng.pick(FOREIGN);
             let mut s = records[j].seq.clone().into_bytes();
             s[pos] = b;
             records[j].seq = String::from_utf8(s).unwrap();
